@@ -113,6 +113,36 @@ def setupAtoms (atoms : Tab AtomT) (c : Cls) (a : Nat) : Res :=
     ⟨ox, ox, ox⟩
   | .hSelfAcid => ⟨[a], bondedEl atoms a "H" ++ [a], [a]⟩
 
+/-! ### covalent coupling (`find_covalently_coupled_groups`) -/
+/-- insertion-ordered set union, as `dict.update` on dicts used as ordered sets -/
+def ounion (a b : List Nat) : List Nat := b.foldl (fun acc x => if acc.contains x then acc else acc ++ [x]) a
+
+/-- `find_bonded_titratable_groups(atom, num_bonds, original_atom)`: the titratable groups whose defining atom is reached from
+    `atom` over at most `maxB` bonds without stepping on `orig`; `grpOf` gives the group an atom defines, `fuel` bounds the depth -/
+def bondedTitr (atoms : Tab AtomT) (grpOf : Nat → Option Nat) (titr : Nat → Bool) (maxB orig : Nat) : Nat → Nat → Nat → List Nat
+  | 0, _, _ => []
+  | fuel+1, a, nb =>
+    (aget atoms a).bonded.foldl (fun res b =>
+      if b == orig then res else
+      let res1 := match grpOf b with
+        | some g => if titr g && decide (nb ≤ maxB) then ounion res [g] else res
+        | none => res
+      if nb < maxB then ounion res1 (bondedTitr atoms grpOf titr maxB orig fuel b (nb + 1)) else res1) []
+
+/-- `couple_covalently` of groups `g` and `h` on the table of coupling lists -/
+def couple (cov : Array (List Nat)) (g h : Nat) : Array (List Nat) :=
+  let c1 := if (cov.getD g []).contains h then cov else cov.setIfInBounds g (cov.getD g [] ++ [h])
+  if (c1.getD h []).contains g then c1 else c1.setIfInBounds h (c1.getD h [] ++ [g])
+
+/-- `find_covalently_coupled_groups`: the coupling lists of all `n` groups; `gatom` the defining atom of a group, `sybyl` the
+    SYBYL type of an atom -/
+def covalentCoupling (atoms : Tab AtomT) (n : Nat) (gatom : Nat → Nat) (grpOf : Nat → Option Nat) (titr : Nat → Bool)
+    (sybyl : Nat → String) (maxB : Nat) : Array (List Nat) :=
+  ((List.range n).filter titr).foldl (fun cov g =>
+    (bondedTitr atoms grpOf titr maxB (gatom g) (maxB + 1) (gatom g) 1).foldl (fun cov h =>
+      if (cov.getD g []).contains h then cov
+      else if sybyl (gatom h) == sybyl (gatom g) then couple cov g h else cov) cov) (Array.replicate n [])
+
 section
 variable {α : Type} [Add α] [Div α] [NatCast α]
 /-- `set_center(atoms)`: coordinates summed in list order from 0.0, then divided by the number of atoms -/
